@@ -164,6 +164,17 @@ class Sim:
         if k == "binop":
             a = self.val_of_operand(rv["a"], env)
             b = self.val_of_operand(rv["b"], env)
+            # ("nz",) = an unsigned integer known to be non-zero (the position handed to a loop closure after its first call)
+            if a is not None and b is not None and ("nz",) in (a, b):
+                o = b if a == ("nz",) else a
+                if o == ("i", 0):
+                    if rv["op"] in ("Eq", "Ne"):
+                        return ("b", rv["op"] == "Ne")
+                    if (rv["op"], a) in (("Gt", ("nz",)), ("Lt", ("i", 0))):
+                        return ("b", True)
+                    if (rv["op"], a) in (("Le", ("nz",)), ("Ge", ("i", 0))):
+                        return ("b", False)
+                return None
             if a is not None and b is not None and a[0] in ("i", "b") and b[0] in ("i", "b"):
                 op = rv["op"]
                 x, y = a[1], b[1]
